@@ -32,7 +32,7 @@ CHECKS["C03"] = dict(
         "the query positions are drawn: absorbed (must-pass reseed whose data originates in the component), authenticated by a Merkle decision "
         "against an absorbed root with leaves recomputed from the returned values, or hash-compared with an absorbed commitment; every sub-parser "
         "rejects trailing bytes on all accepting paths. A component without a binding (e.g. a new field, a dropped absorption, a weakened "
-        "exact-length decision) is reported. Hash/Merkle arithmetic is not decided. Also: TraceQueries::new / ConstraintQueries::new keep the Merkle opening of every Queries::parse whose table they keep (no segment's openings are silently dropped). (U) No decoded content of an accepted proof is left unused: a batch Merkle opening has one leaf per position and every node of every node vector is consumed, and the presence of the optional GKR proof is examined on every accepting path.",
+        "exact-length decision) is reported. Hash/Merkle arithmetic is not decided. Also: TraceQueries::new / ConstraintQueries::new keep the Merkle opening of every Queries::parse whose table they keep (no segment's openings are silently dropped). (U) No decoded content of an accepted proof is left unused: a batch Merkle opening has one leaf per position and every node of every node vector is consumed, and the presence of the optional GKR proof is examined on every accepting path. (U) also: the number of node vectors of a batch opening equals the number of normalised positions (a surplus node vector is unbound decoded content).",
    design_ref="DESIGN.md §3 C03/C05/C02")
 CHECKS["C18"] = dict(
    technique="static analysis: must-pass policy decision per enum arm, canonical comparisons, and normal-form comparison of path-wise symbolic expressions with the documented formula",
@@ -56,7 +56,7 @@ CHECKS["C19"] = dict(
         "(new/reseed/next/draw_integers), that every drawn element is the Some payload of the field's validated conversion of a fresh next() "
         "output and the counter advances once per output, that integers are next() outputs reduced to the power-of-two domain (mask or remainder) and counted, that the proof-of-work measure is read-only and "
         "counter-independent, and that the prover's search predicate is the exact complement of the verifier's reject predicate. Statistical "
-        "statements are not decided. (VALID) from_random_bytes, the conversion behind draw, constructs only elements inside the field's representation range for every byte string (interval analysis, shared with C07's REPR).",
+        "statements are not decided. (VALID) from_random_bytes, the conversion behind draw, constructs only elements inside the field's representation range for every byte string (interval analysis, shared with C07's REPR). (SEP, shared with C11) merge_with_int — the function through which the nonce and the counter enter the hash — encodes the whole integer: one limb iff value < MODULUS, otherwise value % M and value / M (the constant ONE only where the quotient is always one).",
    design_ref="DESIGN.md §3 C19")
 CHECKS["C15"] = dict(
    technique="static analysis: typestate (clean/dirty) as must-pass-through on all return paths, control-dependence of the divisibility decision, sibling agreement of prover and verifier loops",
@@ -64,7 +64,7 @@ CHECKS["C15"] = dict(
         "build_layers refuses to run unless clean and always stores a remainder, that FriVerifier::new exempts the remainder commitment from "
         "the divisibility requirement, and that prover and verifier take the layer count from FriOptions::num_fri_layers and fold positions/"
         "shrink the domain once per layer with the same function. Necessary conditions of reuse and of acceptance of honest proofs with short "
-        "remainders; the folding identity is not decided. (SENT) the remainder handed to FriProof::new is the stored remainder polynomial reached through copies only, and the stored vector is the one whose hash was committed; (T, carried state) no field written while building a proof survives reset() to be rebuilt only behind an ordering test on its own size; (WIDTH) the length prefixes of FriProof/FriProofLayer hold the byte strings of a legal schedule.",
+        "remainders; the folding identity is not decided. (SENT) the remainder handed to FriProof::new is the stored remainder polynomial reached through copies only, and the stored vector is the one whose hash was committed; (T, carried state) no field written while building a proof survives reset() to be rebuilt only behind an ordering test on its own size; (WIDTH) the length prefixes of FriProof/FriProofLayer hold the byte strings of a legal schedule. (FOLDABLE) the proof parser's foldability test looks at the domain of the layer being parsed. The prover's state fields are found by their types, the per-layer loop may be a closure, the exemption test may carry the literal on either side.",
    design_ref="DESIGN.md §3 C15")
 CHECKS["C02"] = dict(
    technique="static analysis: MUST-GUARDS (OOD-consistency decision dominates acceptance), dependence of the verifier's constraint evaluation on every family, complementary coefficient partition, seed field coverage",
@@ -74,7 +74,7 @@ CHECKS["C02"] = dict(
         "randomness), and that the statement (context with every field, public inputs) is bound into the seed. Necessary conditions of soundness "
         "for every AIR; (EXEMPT) ConstraintDivisor::from_transition(n, k) exempts exactly the points g^s, n-k <= s < n (decided for the mapped-range "
         "and push-loop forms; a window shifted by constants or a running point multiplied by itself is reported; other forms are not decided). "
-        "The remaining divisor arithmetic and rejection for every invalid trace are not decided. (ADIV) ConstraintDivisor::from_assertion builds x^k - g^(k*first_step) with k = get_num_steps: degree, exponent (the product of exactly these two values), domain of the generator, the constant ONE only behind the true edge of first_step == 0, no exemption points. (COUNT) coefficient-drawing loops run over 0..N.",
+        "The remaining divisor arithmetic and rejection for every invalid trace are not decided. (ADIV) ConstraintDivisor::from_assertion builds x^k - g^(k*first_step) with k = get_num_steps: degree, exponent (the product of exactly these two values), domain of the generator, the constant ONE only behind the true edge of first_step == 0, no exemption points. (COUNT) coefficient-drawing loops run over 0..N. (COUNT) every coefficient is a separate draw (a draw replicated by vec![..; n] is reported); (GROUPKEY) the divisor group of a boundary assertion is chosen by both its stride and its first step; the seed rules include hand-written chunk loops and staging buffers of to_elements.",
    design_ref="DESIGN.md §3 C03/C05/C02")
 CHECKS["C17"] = dict(
    technique="static analysis: writer/reader agreement by data-flow dependence with callee summaries, control-dependence of the classification, unit consistency of domain-scale accessors",
@@ -82,7 +82,7 @@ CHECKS["C17"] = dict(
         "result, that the classification by polynomial length is a partition stored class by class, that the pre-evaluated representation "
         "uses constraint-evaluation-domain units for both values and step offset, that every evaluation column is folded with its divisor, "
         "that the full-fragment evaluator includes the auxiliary terms, and (shared with C02) that coefficients are partitioned and the "
-        "verifier's evaluation depends on every family. Numerical equality with the definition is not decided. (COLS, shared with C01) the number of composition columns is max(1, ceil((D+1)/trace_length)); (DERIVED) no cached column count survives a setter of the exemption count.",
+        "verifier's evaluation depends on every family. Numerical equality with the definition is not decided. (COLS, shared with C01) the number of composition columns is max(1, ceil((D+1)/trace_length)); (DERIVED) no cached column count survives a setter of the exemption count. (K) the classification of boundary constraints is decided per polynomial length (which push sites stay reachable for lengths 1, 2, 3, S-1, S, S+1, 4S), independent of the order and spelling of the tests; (DEDUP) dedup() in the constraint-evaluation code only after a sort of the same vector.",
    design_ref="DESIGN.md §3 C17")
 CHECKS["C07"] = dict(
    technique="static analysis: exact integer arithmetic on constants extracted from the compiled crates (Lucas primality proof, orders), MUST-GUARDS for modulus decisions with comparison width, MIR lint for normalisation and canonical serialisation, interval abstract interpretation with case splits for the representation range, abstract interpretation in the domain of exact integer-linear forms with quotient/remainder atoms (E5b) for the carry/borrow logic",
@@ -96,7 +96,7 @@ CHECKS["C07"] = dict(
         "square, f64 mul_small and f128 new, the stored integer is congruent modulo p to the integer operation on the operands on every "
         "carry/borrow path and lies in the representation range, for all operands in that range (exact linear forms with exact quotient/"
         "remainder splitting and polyhedral side conditions; 19 operations). Not decided: f128 mul, inv, exp.",
-   note="Assumption (f64 REPR, interval engine only): mont_red_cst / mont_red_var return values in [0, M); for mul, new and as_int this is proved by ARITH.",
+   note="Assumption (f64 REPR, interval engine only): mont_red_cst / mont_red_var return values in [0, M); for mul, new and as_int this is proved by ARITH. (EXPBITS) no loop of an exponentiation routine (exp, exp_vartime, exp_acc) is bounded by a constant of the field: the exponent type decides how many bits are scanned.",
    design_ref="DESIGN.md §3 C07")
 CHECKS["C11"] = dict(
    technique="static analysis: control-dependence of the zero-copy byte view on IS_CANONICAL, monotone-counter rule with sibling cross-check, exact arithmetic on constant tables, data/control dependence of the capacity element on the input length, abstract interpretation in the domain of exact integer-linear forms (E5b) for the frequency-domain MDS product",
@@ -106,7 +106,7 @@ CHECKS["C11"] = dict(
         "length-dependent value into a fixed capacity position, and (FAST) that mds_multiply for the 12x12 and 8x8 matrices stores, for every input "
         "state and on every carry case of its final reduction, values congruent modulo p to the product with the hasher's MDS table (limb split, "
         "real FFTs, Hadamard blocks and inverse FFTs without overflow included). Equality with the reference permutations beyond the MDS layer "
-        "(round constants, S-box exponents) is not decided. (ZPAD) in every Rescue byte sponge a chunk of variable length is copied into a staging buffer re-initialised since the chunk was fetched (no bytes of the previous chunk behind the padding byte).",
+        "(round constants, S-box exponents) is not decided. (ZPAD) in every Rescue byte sponge a chunk of variable length is copied into a staging buffer re-initialised since the chunk was fetched (no bytes of the previous chunk behind the padding byte). (SEP) refinements: the length injected by hash_elements is the length of the base-element slice that is absorbed; in merge_with_int the high limb is value / MODULUS, or the constant ONE exactly where 2*MODULUS exceeds the integer type.",
    design_ref="DESIGN.md §3 C11")
 CHECKS["C12"] = dict(
    technique="static analysis: token-grammar extraction from the MIR of every write_into/read_from pair with path-set comparison; limit agreement between constructor assertions, writer casts and reader decisions",
@@ -125,7 +125,7 @@ CHECKS["C14"] = dict(
         "reviewed ones; the raw worker count is consumed only through next_power_of_two() so batch boundaries stay aligned for every pool "
         "size; in fragment evaluators a row position handed to anything but the fragment derives from fragment.offset(); public functions of "
         "`concurrent` modules have serial siblings with identical signatures. Index-disjointness at the raw-pointer "
-        "sites and bit-identity of results are not decided. (Z) a per-batch count x / batches(size) divides the quantity the thresholded batch-count helper was asked about, or the batch count is capped by x (genuine defect F32 of the pinned tree, repaired).",
+        "sites and bit-identity of results are not decided. (Z) a per-batch count x / batches(size) divides the quantity the thresholded batch-count helper was asked about, or the batch count is capped by x (genuine defect F32 of the pinned tree, repaired). (F) also covers running positions: a counter started from a constant inside a fragment evaluator is fragment-local, one started from fragment.offset() is global.",
    design_ref="DESIGN.md §3 C14")
 CHECKS["C08"] = dict(
    technique="static analysis: symbolic evaluation of MIR into polynomial normal forms over F_p (E5) + exact number theory on extracted constants (E6) + layout/dataflow rules",
@@ -172,7 +172,7 @@ CHECKS["C06"] = dict(
         "options as attacker-controlled arguments: eight of their assertions are reachable from proof bytes (confirmed by tests), have no small "
         "safe repair (Air::new cannot fail) and are reported as KNOWN-FINDING (known_findings.json); a further one would be a VIOLATION. Not "
         "covered: the rest of the transcript replay / DEEP / FRI query phase of verify(), assertions written by AIR authors in Air::new, "
-        "termination, memory other than pre-allocation by unchecked counts.",
+        "termination, memory other than pre-allocation by unchecked counts. Lengths handed to bulk reads (read_vec/read_slice/read_string/check_eor) are obligations too: an input-chosen length near usize::MAX must not reach the slice reader's `pos + n` test. get_root's node-vector count guard is part of rule G.",
    design_ref="DESIGN.md §3 C06",
    note="Additional assumptions: std transfer functions for ~60 core/alloc functions; associated constants ELEMENT_BYTES <= 64, EXTENSION_DEGREE <= 3; "
         "untainted (AIR-defined) operands below 2^32 when deciding whether an overflow is attacker-driven; contract for Context::num_modulus_bits.")
